@@ -49,6 +49,9 @@ var isoPool = []int{0, 1, 2, 3, 4, 8, 9, 10}
 type C16Val struct {
 	Data []byte
 	N    int64
+	// last field, repeated: dropping trailing elements makes the new encoding a strict byte
+	// prefix of the old one (an empty list encodes to nothing)
+	Tags [][]byte
 }
 
 func init() {
@@ -150,6 +153,13 @@ func toInts(b []byte) []int {
 
 // value number -> value; sizes vary (empty payload, short, a few hundred bytes)
 func mkVal(n int) *C16Val {
+	if n >= 1000 { // prefix family: same Data and N, the first n-1000 tags
+		v := mkVal(3)
+		for i := 0; i < n-1000; i++ {
+			v.Tags = append(v.Tags, []byte{byte(97 + i), byte(i)})
+		}
+		return v
+	}
 	sz := []int{0, 1, 3, 17, 64, 300}[n%6]
 	if n >= 100 { // big values: the bucket leaves bbolt's inline representation, pages get recycled
 		sz = 150 + (n%4)*60
@@ -1195,6 +1205,9 @@ func corpus() []interface{} {
 			{Kind: "load", Svc: 0, Key: []int{107, 49}},
 			{Kind: "loadver", Svc: 1},
 		}},
+		// overwrites whose encoding is a strict prefix / an extension of / equal to the stored
+		// one: the later save wins, in the same process and after a restart
+		prefixCase(),
 		// the last saved version wins, 0 included, also across a restart
 		input{Kind: "hist", Class: "versions", Names: []string{"Alpha", "Beta"}, Ops: []opIn{
 			{Kind: "loadver", Svc: 0},
@@ -1228,6 +1241,41 @@ func corpus() []interface{} {
 			{Kind: "load", Svc: 0, Key: []int{7}},
 		}},
 	}
+}
+
+func prefixCase() input {
+	k, k2 := []int{112, 102}, []int{112, 103}
+	enc := func(n int) []byte {
+		b, err := network.Marshal(mkVal(n))
+		if err != nil {
+			panic(err)
+		}
+		return b
+	}
+	for n := 1000; n < 1004; n++ {
+		if a, b := enc(n), enc(n+1); len(a) >= len(b) || !bytes.HasPrefix(b, a) {
+			panic("c16 harness: value family 1000.. is not a chain of strict byte prefixes")
+		}
+	}
+	in := input{Kind: "hist", Class: "isolated", Names: []string{"Alpha", "Beta"}}
+	step := func(svc int, key []int, val int) {
+		in.Ops = append(in.Ops, opIn{Kind: "save", Svc: svc, Key: key, Val: val},
+			opIn{Kind: "loadraw", Svc: svc, Key: key}, opIn{Kind: "load", Svc: svc, Key: key})
+	}
+	step(0, k, 1003)
+	step(0, k, 1002) // strict prefix of the stored encoding
+	step(1, k, 1001)
+	step(0, k, 1002) // equal
+	step(0, k, 1004) // extension
+	step(0, k2, 1004)
+	step(0, k2, 1000) // all tags dropped
+	step(1, k, 1000)
+	in.Ops = append(in.Ops, opIn{Kind: "restart"},
+		opIn{Kind: "load", Svc: 0, Key: k}, opIn{Kind: "loadraw", Svc: 0, Key: k2}, opIn{Kind: "load", Svc: 1, Key: k})
+	step(0, k, 1001) // prefix of what was stored before the restart
+	in.Ops = append(in.Ops, opIn{Kind: "oldrestart"},
+		opIn{Kind: "loadraw", Svc: 0, Key: k}, opIn{Kind: "load", Svc: 0, Key: k2}, opIn{Kind: "loadraw", Svc: 1, Key: k})
+	return in
 }
 
 func bigCorpus() input {
